@@ -276,6 +276,8 @@ void MEDDLY::prepost_set_mtrel<EOP, ATYPE>::_compute(int L,
         // Treat that case quickly.
         //
         ATYPE::apply(arg1F, av, A, arg2F, B, resF, cv, C);
+        // The result was built at A's level; add nodes up to level L.
+        C = resF->makeRedundantsTo(C, Alevel, L);
         return;
     }
 
